@@ -77,7 +77,10 @@ def ref_program(rng, max_nodes=9):
 def run_resolve(ops, root, extra):
     nodes = graphs.build(ops)
     try:
-        r = nodes[root].resolve([nodes[e] for e in extra])
+        # a resolve() that loops (e.g. on a chain of references that the code follows iteratively) is an observation
+        r = limited(1, nodes[root].resolve, [nodes[e] for e in extra])
+    except ImplTimeout:
+        return nodes, None, "py:does-not-return"
     except Exception as e:  # noqa
         return nodes, None, graphs.err_str(e)
     return nodes, r, None
@@ -400,6 +403,47 @@ def run(pid, tier):
                     ck.violation("not-well-formed:" + name, "%s graph for %s is not well-formed by the model's checker (%s)" % (name, what[:200], m),
                                  {"stream": "front-ends", "front_end": name, "input": what})
         fences_env.run_with_big_stack(front, reclimit=2600)
+        def names():
+            # the name clause at the grammar front end: a non-terminal defined twice (two NonTerminal objects with the same
+            # name are two keys of the grammar dict) or used without a definition must end in the resolution exception
+            import grammars as GM
+            from fences import parse_grammar
+            from fences.grammar.types import NonTerminal, Terminal, Alternative
+            from fences.core.exception import ResolveReferenceException
+            made = 0
+            for _ in range(400):
+                if made >= (24 if tier == "quick" else 400):
+                    break
+                g, start = GM.gen_grammar(rng)
+                if not (GM.names_defined(g) and GM.productive(g)):
+                    continue
+                made += 1
+                gr = GM.to_fences(g)
+                kind = "duplicate" if made % 2 else "undefined"
+                if kind == "duplicate":
+                    nm = rng.choice([n for n, _ in g])
+                    gr[NonTerminal("n%d" % nm)] = Terminal(rng.choice(["z", "0"]))
+                else:
+                    key = [k for k in gr if k.name == "n%d" % start][0]
+                    gr[key] = Alternative([gr[key], NonTerminal("n999")])
+                fe["grammar_" + kind] = fe.get("grammar_" + kind, 0) + 1
+                ck.count("names" + kind + json.dumps(g), True)
+                try:
+                    limited(10, parse_grammar, gr, "n%d" % start)
+                    out = "returned a graph"
+                except ResolveReferenceException:
+                    continue
+                except ImplTimeout:
+                    out = "did not return"
+                except RecursionError:
+                    out = "raised RecursionError"
+                except Exception as e:  # noqa
+                    out = "raised %s" % type(e).__name__
+                ck.violation("resolve-error-missing:grammar-" + kind, "a grammar with a non-terminal that is %s: parse_grammar %s instead of raising ResolveReferenceException" % (
+                    "defined twice" if kind == "duplicate" else "used but not defined", out),
+                    {"stream": "front-ends", "front_end": "grammar", "names": kind, "rules": g, "start": start})
+                break
+        fences_env.run_with_big_stack(names, reclimit=2600)
         stats.update({"front_end_" + k: v for k, v in fe.items()})
         ck.sample({"ops": cases[0][0], "root": 0, "extra": cases[0][2]})
         ck.cov["rule"] = ("hand-built graphs with Reference nodes: 1-3 sub-graphs (root + definitions passed to resolve), ids from a small pool "
